@@ -2,6 +2,7 @@
 //!   nvh gen <stream> <seed> <n> [tier]   print op lines (deterministic in seed)
 //!   nvh run <stream>                      read op lines on stdin, one canonical output line each
 mod rng;
+mod sched;
 mod streams;
 mod tok;
 mod util;
